@@ -15,6 +15,29 @@ GLOBAL_TRUSTED = [
 ]
 
 
+# Properties whose discharged obligations decide at least one full clause of the property
+# statement for all inputs (level "proof" when every obligation is discharged).  For the others the
+# obligations cover auxiliary clauses only and the run reports level "other" (or "exploration"
+# when there is no obligation at all); the central clauses are then decided bounded.
+PROOF_CORE = {
+    'C01': 'minimal bounding box and exact overlap slices (None iff no common pixel)',
+    'C02': 'results for many positions equal results one at a time (loop independence); exact '
+           'common-pixel slices',
+    'C05': 'every derived attribute equals that of a fresh object after any history (cache '
+           'coherence invariant)',
+    'C06': 'never modifies the input segmentation image',
+    'C08': 'a sliced catalog is independent of its parent (ownership)',
+    'C09': 'no result depends on access order or earlier calls (purity / configuration / reset '
+           'invariants)',
+    'C10': 'no public call modifies its arguments (frames)',
+    'C11': 'boxes with too few good pixels: the documented exclusion rule',
+    'C17': 'centroid_sources acts per source, independent of the other positions',
+    'C18': 'leaves the input model and table unchanged; row-order independence of the loop state',
+    'C19': 'the encircled-energy interpolators invert each other on the monotone part (maximal '
+           'monotone prefix)',
+}
+
+
 def load_json(name, default):
     p = os.path.join(VERIF, name)
     if os.path.exists(p):
@@ -140,8 +163,16 @@ def finish(prop, tier, seed, obligations, infos, rtc, crashes, wall):
         samples += rtc.get('samples', [])[:4]
     coverage['samples'] = samples or [{'note': 'no case explored'}]
     proof_clean = n_ob > 0 and n_dis == n_ob
-    if proof_clean:
+    if proof_clean and prop in PROOF_CORE:
         level = 'proof'
+        coverage['proved_clause'] = PROOF_CORE[prop]
+    elif proof_clean:
+        level = 'other'
+        coverage['explanation'] = (
+            f'all {n_ob} proof obligations are discharged, but they decide auxiliary clauses of '
+            'the property only (see level_claimed in MANIFEST.json); the central clauses are '
+            'decided by the bounded run-time contract driver, which is a stand-in and not a '
+            'proof. Therefore this run does not claim level "proof".')
     elif n_ob > 0:
         level = 'other'
         coverage['explanation'] = (
